@@ -166,9 +166,12 @@ Definition serializable_b (h : heap) (m : model) : bool :=
                        | O => false
                        | S f' => scope_ok_body h (scope_ok f' h) true [] (f_graph f)
                        end) (m_funcs m)
-  (* every consumer of a reachable value is a node of the model *)
+  (* every consumer of a reachable value is a node of the model; only initializers carry a const_value
+     (Value.const_value docstring: "If the Value is not part of a graph initializers dictionary, the
+     const_value field will be ignored during serialization") *)
   && forallb (fun v => match getv h v with
                        | Some x => forallb (fun u => mem (fst u) (s_n s)) (v_uses x)
+                                   && match v_const x with Some _ => v_init x | None => true end
                        | None => false
                        end) (s_v s).
 
